@@ -182,7 +182,7 @@ func VH_C03N() {
 	opts = append(opts, "x")
 	for k := vChoose(vParam("opts", 2) + 1); k > 0; k-- {
 		w := vChoose(2)
-		switch vChoose(6) {
+		switch vChoose(9) {
 		case 0:
 			opts = append(opts, WithWriter(pool[w]))
 			cfg.normal = []int{w}
@@ -196,11 +196,24 @@ func VH_C03N() {
 			opts = append(opts, AddErrorWriter(pool[w]))
 			cfg.errw = append(cfg.errw, w)
 		case 4:
-			opts = append(opts, AddLevelWriter(InfoLevel, pool[w]))
-			cfg.leveled[InfoLevel] = append(cfg.leveled[InfoLevel], w)
+			l := []Level{InfoLevel, ErrorLevel}[vChoose(2)]
+			opts = append(opts, AddLevelWriter(l, pool[w]))
+			cfg.leveled[l] = append(cfg.leveled[l], w)
 		case 5:
 			opts = append(opts, ResetWriters())
 			cfg = vCfg{normal: []int{vWStdout}, errw: []int{vWStderr}, leveled: map[Level][]int{}}
+		case 6:
+			// the option forms of the per-level removals
+			l := []Level{InfoLevel, ErrorLevel}[vChoose(2)]
+			opts = append(opts, ResetLevelWriter(l))
+			delete(cfg.leveled, l)
+		case 7:
+			opts = append(opts, ResetLevelWriters())
+			cfg.leveled = map[Level][]int{}
+		case 8:
+			l := []Level{InfoLevel, ErrorLevel}[vChoose(2)]
+			opts = append(opts, RemoveLevelWriter(l, pool[w]))
+			cfg.leveled[l] = vDel(cfg.leveled[l], w)
 		}
 	}
 	lg := New(opts...).(*logimp).Entry
